@@ -579,4 +579,14 @@ theorem reachable_step {s s' : State} {a : Act} (h : Reachable s) (hs : step s a
   obtain ⟨old, acts, hr⟩ := h
   exact ⟨old, acts ++ [a], run_snoc hr hs⟩
 
+/-- any number of refused pack attempts in a row change nothing -/
+theorem refused_repeat {s : State} (hf : s.packFlag = true) (n : Nat) :
+    run s (List.replicate n .packRefused) = some s := by
+  induction n with
+  | zero => rfl
+  | succ n ih =>
+    have h1 : step s .packRefused = some s := by simp [step, hf]
+    simp only [List.replicate_succ, run, h1]
+    exact ih
+
 end Proofs.PackProto
